@@ -16,7 +16,7 @@ CLAIMS = {
          TRUST + "Not verifiable here: reflection over arbitrary user-defined types (methods with side effects), encoding/gob on hostile bytes, memory exhaustion. Panic freedom of the Go index arithmetic is evidenced by the correspondence (the model uses total list operations where Go slices) and the fuzz, not by a theorem.",
          "Lean 4 proof (fuel adequacy/monotonicity = termination of the transliterated parsers; totality of the decoder) + fuzz/type-zoo search on the real code", "DESIGN.md §4 C05"),
  "C11": ("proof",
-         "Lean theorems over the validated whole-pipeline model, for every include node, option combination, context and `go`: after an include the includer's context (variables, macros, blocks, flags) is exactly what it was (C11_non_interference, built on evalX_ctx: expression evaluation never changes the context); the included template sees the `with` variables (last duplicate wins) over the includer's visible variables, only the `with` variables under `only`, the flattened copy of the whole scope chain under `sandboxed` (C11_visibility_*); a missing template is empty output under `ignore missing` and notFound otherwise, any other failure propagates even with `ignore missing` (C11_ignore_missing, _only_missing, _existing_failure_reported). "
+         "Lean theorems over the validated whole-pipeline model, for every include node, option combination, context and `go`: after an include the includer's context (variables, macros, blocks, flags) is exactly what it was (C11_non_interference, built on evalX_ctx: expression evaluation never changes the context); the included template sees the `with` variables (last duplicate wins) over the includer's visible variables, only the `with` variables under `only`, the flattened copy of the whole scope chain under `sandboxed` (C11_visibility_*); a missing template is empty output under `ignore missing` and notFound otherwise, any other failure propagates even with `ignore missing` (C11_ignore_missing, _only_missing, _existing_failure_reported). Engine globals are in the model: C11_context_shadows_global, C11_global_visible_everywhere, C11_global_visible_in_only_include, C11_defined_iff / C11_defined_scope_independent. "
          "Tie: 4 variable names × unset/context/set-before × with/only/ignore missing/sandboxed × static/computed/missing/failing target × placement at top level, in a loop, block, macro, nested include; view of the included template and probes before/after checked against the scope rule on the real engine and against the Lean pipeline.",
          TRUST + "The includer's macros are hidden from a sandboxed include and loop variables stay bound after a loop — modelled as in Go; the property is silent on both.",
          "Lean 4 proof (frame reasoning over the context chain) + differential correspondence + scope-rule oracle", "DESIGN.md §4 C11"),
@@ -61,7 +61,7 @@ CLAIMS = {
          TRUST + "The deep claim 'every block at any nesting depth sees the table' follows compositionally from the frame lemma; it is not stated as one closed equation.",
          "Lean 4 proof (induction on chain length and fuel, frame lemma over the mutual recursion) + differential correspondence + independent spec oracle", "DESIGN.md §4 C10"),
  "C12": ("proof",
-         "Lean theorems over the validated whole-pipeline model: positional binding with defaults evaluated in the caller's state, null for the rest, extra arguments ignored (C12_binding and corollaries); the body runs in a context whose own variables are exactly the parameters with the caller's scope as parent chain and the caller's context is restored exactly (C12_shadow_and_isolation); a parameter reads as its bound value whatever macros are visible (C12_param_read); direct, _self, import, from-import and aliased calls evaluate to the same callable (C12_routes_agree, C12_import_and_from_agree); every top-level macro of the defining template is callable from a macro body however it was reached (C12_siblings). "
+         "Lean theorems over the validated whole-pipeline model: positional binding with defaults evaluated in the caller's state, null for the rest, extra arguments ignored (C12_binding and corollaries); the body runs in a context whose own variables are exactly the parameters with the caller's scope as parent chain and the caller's context is restored exactly (C12_shadow_and_isolation); a parameter reads as its bound value whatever macros are visible (C12_param_read); direct, _self, import, from-import and aliased calls evaluate to the same callable (C12_routes_agree, C12_import_and_from_agree); for every macro NAME, also names of built-in functions (C12_routes_agree_function_named); every top-level macro of the defining template is callable from a macro body however it was reached (C12_siblings). "
          "Tie: all signatures of arity ≤ 3 × default subsets × argument counts × five routes (and sampled placements in loops, blocks, macros) on the real engine, the Lean pipeline and an independent binding spec.",
          TRUST + "Not proved: agreement of the two macro declaration parsers (the combined-token path is unreachable from the tokenizer).",
          "Lean 4 proof (route-by-route evaluation lemmas, binding induction) + differential correspondence + independent spec oracle", "DESIGN.md §4 C12"),
@@ -81,22 +81,22 @@ CLAIMS = {
          TRUST + "Provenance classification is intra-procedural and conservative; user methods called through attribute access may mutate their receivers (callbacks, excluded by the property).",
          "Lean 4 proof (frame rule) + regenerated write-site provenance table + snapshot oracle", "DESIGN.md §4 C18"),
  "C19": ("proof",
-         "Lean theorems for every input of the stated type: idempotence of upper/lower/trim/capitalize/title (under case-map laws checked against Go's unicode tables for every code point on every run), reverse involution and length preservation (with Go's exact UTF-8 decoding), sort = ordered permutation (and canonical), length = number of items first/last/slice/for observe, split∘join, default, merge, keys, slice = Twig's index rules for every 64-bit start/length (C19_slice_total), round = exact decimal rounding for common/ceil/floor (C19_round_exact, C19_round_mode_exact), abs, number_format digit grouping. "
+         "Lean theorems for every input of the stated type: idempotence of upper/lower/trim/capitalize/title (under case-map laws checked against Go's unicode tables for every code point on every run), reverse involution and length preservation (with Go's exact UTF-8 decoding), sort = ordered permutation (and canonical), length = number of items first/last/slice/for observe, split∘join, default, merge, keys, slice = Twig's index rules for every 64-bit start/length (C19_slice_total), round = exact decimal rounding for common/ceil/floor (C19_round_exact, C19_round_mode_exact), abs, number_format digit grouping. The same filters inside arbitrary programs: TwigProofs/C19Pipe.lean (34 theorems C19_pipe_*) proves that the pipeline model's length/first/last/reverse/trim/slice/sort/split/capitalize/title are the filter model's functions on converted values and transports the equations to pipeline level. "
          "Tie: ≈ 190 000 model comparisons per quick run through real templates, plus the equations checked directly on implementation output. Known findings (pinned by the repo's own tests): number_format decimal ties, multi-character split, split of an empty join.",
          TRUST + "Trusted: strings.Map/Fields/TrimSpace/regexp.Split read into rune-level definitions; FormatFloat/ParseFloat round-trip of decimals with ≤ 15 digits; binary evaluation exact away from ties for number_format.",
          "Lean 4 proof (per-filter algebraic laws for all inputs) + differential correspondence", "DESIGN.md §4 C19"),
  "C04": ("proof",
-         "Lean theorems over ALL byte strings about the exact model of both tokenizers (C04_text_only, C04_chunks, C04_chunks_texts, C04_comment_inert_tokens): literal chunks come out as TEXT tokens exactly once, unmodified, in order; comments contribute one inert token triple. "
+         "Lean theorems over ALL byte strings about the exact model of both tokenizers (C04_text_only, C04_chunks, C04_chunks_texts, C04_comment_inert_tokens): literal chunks come out as TEXT tokens exactly once, unmodified, in order; comments contribute one inert token triple. Lifted to the whole pipeline (TwigProofs/Lift.lean): C04_text_only_render, C04_output_render (output = literals interleaved with values, errors included), C04_comment_inert_render (any rest of template, under the decidable NoReach; the counterexample theorem shows why), C04_verbatim_*_render. "
          "The model is tied to the code on every run by the token-stream and whole-pipeline (scan→parse→render in Lean) correspondence plus implementation-only oracles (chunks interleaved with marker values, comment/verbatim inertness with spy callbacks).",
          TRUST + "Modelled, not verified: parser/renderer paths of text, comment and verbatim nodes are covered by the pipeline correspondence, not by a theorem yet. Known finding: backslash before an opener (C04_counterexample_backslash).",
          "Lean 4 proof (induction over byte strings / chunk lists) + differential correspondence", "DESIGN.md §4 C04"),
  "C13": ("proof",
-         "Lean theorems for every template shape and every subset of dashed delimiters (C13_commutes: scanning the dashed source and applying whitespace control + kind normalisation equals scanning the hand-trimmed source, up to empty TEXT tokens; C13_only_ws; C13_applyWs_spec). "
+         "Lean theorems for every template shape and every subset of dashed delimiters (C13_commutes: scanning the dashed source and applying whitespace control + kind normalisation equals scanning the hand-trimmed source, up to empty TEXT tokens; C13_only_ws; C13_applyWs_spec). Lifted to rendering: C13_commutes_render — for ALL tag kinds (include with every option and verbatim included), any subset of dashes, any context: the dashed template renders exactly like the hand-trimmed one (same output or same error), no fuel hypothesis (parser fuel adequacy proved); C13_render_dropEmptyText. "
          "Tie: Lean pipeline vs real engine on dashed programs; implementation-only oracle render(dashed) = render(hand-trimmed) for every tag kind and delimiter.",
          TRUST + "The lift from token streams to rendered output (an empty TEXT token prints nothing and never affects parsing) is covered by the correspondence, not yet by a theorem.",
          "Lean 4 proof (token-stream commutation lemma, induction over chunk/tag lists) + differential correspondence", "DESIGN.md §4 C13"),
  "C14": ("proof",
-         "Lean theorem C14_scanners_agree: the two tokenizers produce the same token stream (or the same error) for EVERY byte string, hence the 4096-byte threshold is unobservable (C14_scan_threshold_irrelevant); C14_padding_*: literal padding only extends/introduces TEXT tokens; fuel adequacy. "
+         "Lean theorem C14_scanners_agree: the two tokenizers produce the same token stream (or the same error) for EVERY byte string, hence the 4096-byte threshold is unobservable (C14_scan_threshold_irrelevant); C14_padding_*: literal padding only extends/introduces TEXT tokens; fuel adequacy. Lifted: C14_scanners_agree_render / C14_threshold_render (rendering does not depend on which tokenizer ran), C14_padding_parse, C14_padding_render, C14_comment_padding_render, C14_padding_between_nodes_render. "
          "Tie: threshold and token constants regenerated from the Go source (C14_facts_tokens), exhaustive small-scope + random token-stream correspondence for both real tokenizers, padded renders straddling every size class.",
          TRUST + "Buffer/pool size classes are exercised by the padding oracle only (runtime behaviour outside the model).",
          "Lean 4 proof (scanner equivalence for all inputs) + regenerated facts + differential correspondence", "DESIGN.md §4 C14"),
